@@ -203,7 +203,8 @@ class Sample(object):
                 "Failed to compute decay time correctly (%.1g error). Please"
                 " report material, mass, flux and exposure.") % percent_error
             raise RuntimeError(msg)
-        return t
+        # The root may sit below zero by the tolerance of the root finder
+        return max(t, 0)
 
     def _accumulate(self, activity):
         for el, activity_el in activity.items():
